@@ -27,7 +27,7 @@ RULE = ('case = (data class, first computation | forced recomputation over an ex
         'reference; zero runs if has_data was true, exactly one run of the task otherwise); second request; for failed directory tasks <key>_error '
         'holds what was written and (first computation) no <key> exists; a failed ContinuesData run keeps <key>_tmp for continuation. '
         'non-trivial = every enumerated fault point; distinct = (data class, mode, fault kind, index)')
-REQUIRED = ['strace_crosschecks', 'crash_after_rename_points', 'recorded_executions', 'crash_points', 'torn_writes', 'raise_points', 'post_fault_checks', 'recovered_by_recompute', 'complete_result_found',
+REQUIRED = ['input_failure_points', 'delete_then_fresh_chain_checks', 'strace_crosschecks', 'crash_after_rename_points', 'recorded_executions', 'crash_points', 'torn_writes', 'raise_points', 'post_fault_checks', 'recovered_by_recompute', 'complete_result_found',
             'forced_mode_executions', 'error_dirs_checked', 'continues_tmp_checked']
 ASSUMPTIONS = ['crash model: process death between audited file operations and torn sequential writes; no power-loss / page-cache reordering',
                'H5Data (native I/O invisible to the audit hook) and FigureData are not exercised',
@@ -57,6 +57,9 @@ def make_spec(kind, variant, rng):
     tasks = [up, x]
     if variant % 2:
         x['inputs'] = [{'form': 'class', 'ref_class': 'Upstream', 'ref_class_path': f'{pkg}.m.Upstream', 'access': 'index', 'index': 0}]
+        if rng.random() < 0.5 or variant % 4 == 3:
+            # the input is a run ARGUMENT: it is computed before the run body starts
+            x['inputs'] = [{'form': 'class', 'ref_class': 'Upstream', 'ref_class_path': f'{pkg}.m.Upstream', 'access': 'args', 'arg': 'upstream'}]
     tasks.append({'cls': 'Consumer', 'data_kind': 'json_list', 'params': [],
                   'inputs': [{'form': 'class', 'ref_class': 'Producer', 'ref_class_path': f'{pkg}.m.Producer', 'access': 'index', 'index': 0}]})
     spec = {'pkg': pkg, 'modules': [{'name': 'm', 'package': None, 'tasks': tasks}],
@@ -74,7 +77,10 @@ def check_after(lab, ref, root, tname, res, witness, what, data_dir, expect_erro
     t = ref.tasks[tname]
     steps = [{'op': 'build', 'chain': 'c', 'root': root}, {'op': 'snapshot', 'chain': 'c', 'light': True},
              {'op': 'value', 'chain': 'c', 'task': tname}, {'op': 'value', 'chain': 'c', 'task': tname},
-             {'op': 'build', 'chain': 'c2', 'root': root}, {'op': 'value', 'chain': 'c2', 'task': 'consumer'}]
+             {'op': 'build', 'chain': 'c2', 'root': root}, {'op': 'value', 'chain': 'c2', 'task': 'consumer'},
+             # later still: the result is deleted on request and not recomputed by that chain; nothing of the faulted execution may come back
+             {'op': 'force', 'chain': 'c2', 'tasks': [tname], 'delete_data': True},
+             {'op': 'build', 'chain': 'c3', 'root': root}, {'op': 'snapshot', 'chain': 'c3', 'light': True}, {'op': 'value', 'chain': 'c3', 'task': tname}]
     r = lab.run(steps, data_dir=data_dir)
     prob = session_problem(r)
     if prob:
@@ -127,6 +133,17 @@ def check_after(lab, ref, root, tname, res, witness, what, data_dir, expect_erro
         res.violate(f'{what}: a downstream task in a further chain fails or computes from a wrong value: {o[5].get("exc")}: {str(o[5].get("msg"))[:150]}', mech=mech,
                     witness=witness, facts={'tag': 'downstream'})
         return
+    if o[6]['ok'] and o[7]['ok']:
+        res.count('delete_then_fresh_chain_checks')
+        if o[8]['snapshot']['tasks'][tname].get('has_data'):
+            if not o[9]['ok'] or o[9]['vdigest'] != t['vdigest']:
+                res.violate(f'{what}: after the result was deleted on request (force(delete_data=True)), a later chain sees a result again and it is not the complete '
+                            f'value (leftovers of the faulted execution came back): {o[9].get("exc")}', mech=mech, witness=witness, facts={'tag': 'leftover_resurrected'})
+                return
+        elif not o[9]['ok'] or o[9]['vdigest'] != t['vdigest']:
+            res.violate(f'{what}: after deleting the result a later chain cannot recompute it: {o[9].get("exc")}: {str(o[9].get("msg"))[:150]}', mech=mech, witness=witness,
+                        facts={'tag': 'no_recovery_after_delete'})
+            return
 
 
 def mech_of(kind, what):
@@ -292,6 +309,32 @@ def enumerate_faults(kind, mode, variant, rng, res: CaseResult):
                                 facts={'tag': 'continues_tmp'})
             check_after(lab, ref, root, slug, res, witness, what + ' (later chain)', d2,
                         continues_tmp='prov.txt' if (kind == 'continues' and fk == 'raise_mid_dir') else None)
+        # ---- (d) the failure comes from an INPUT task (transient), then the same chain is asked again -------------------------------------
+        if variant % 2 and not forced:
+            for fk in ('raise_before', 'raise_after_log'):
+                d = fresh_dir('inraise')
+                steps = [{'op': 'build', 'chain': 'c', 'root': root}, {'op': 'arm_fault', 'chain': 'c', 'task': 'upstream', 'kind': fk},
+                         {'op': 'value', 'chain': 'c', 'task': slug}, {'op': 'disarm', 'chain': 'c'}, {'op': 'value', 'chain': 'c', 'task': slug},
+                         {'op': 'value', 'chain': 'c', 'task': 'consumer'}]
+                r = lab.run(steps, data_dir=d)
+                if session_problem(r):
+                    res.inconclusive.append(session_problem(r))
+                    continue
+                res.count('input_failure_points')
+                failed, retry, cons = r['steps'][2], r['steps'][4], r['steps'][5]
+                what = f'{kind} ({mode}): input task fails with {fk}'
+                witness = dict(base_witness, fault=['input_raise', fk])
+                if failed['ok']:
+                    res.violate(f'{what}: the request returned a value although its input task raised', witness=witness, facts={'tag': 'fault_swallowed'})
+                    continue
+                if not retry['ok'] or retry['vdigest'] != t['vdigest']:
+                    res.violate(f'{what}: requesting the value again from the same chain does not recover: {retry.get("exc")}: {str(retry.get("msg"))[:200]}',
+                                witness=witness, facts={'tag': 'same_chain_recovery_after_input_failure'})
+                elif not cons['ok']:
+                    res.violate(f'{what}: the downstream task cannot be computed after the recovery: {cons.get("exc")}', witness=witness, facts={'tag': 'downstream'})
+                stray = [p_ for p_ in (d / refscheme.rel_dir(t['slug'])).glob('*_tmp*')] if (d / refscheme.rel_dir(t['slug'])).exists() else []
+                if kind in ('dir', 'empty_dir') and retry['ok'] and stray:
+                    res.violate(f'{what}: work directories left behind after the successful retry: {[s_.name for s_ in stray]}', witness=witness, facts={'tag': 'stray_workdir'})
     if res.sample is None:
         res.sample = {'kind': kind, 'mode': mode, 'events': events[:12]}
 
